@@ -93,6 +93,7 @@ def run_case(case):
         kwargs[name] = v
     cmd = cls("r", [], program=None, lineno=case.get("lineno", 7))
     out = {}
+    res = None
     import warnings
 
     with warnings.catch_warnings():
@@ -112,6 +113,44 @@ def run_case(case):
                 out["exc_str_error"] = type(e2).__name__
             out["exc_lineno"] = getattr(e, "lineno", None)
             out["traceback"] = traceback.format_exc()[-1500:]
+    if case.get("then") and out.get("outcome") == "return" and isinstance(res, numpy.ndarray):
+        # C09: the result just produced is consumed by further commands, one after the other; it must stay exactly as it was
+        import os
+        import tempfile
+
+        snap0 = dump_array(res)
+        chain = []
+        producer = StubCommand("P", res, bool(getattr(cls, "is_fuzzy", False)))
+        tmpd = tempfile.mkdtemp(prefix="vimm")
+        for step in case["then"]:
+            cmod = importlib.import_module(step["module"])
+            ccls = getattr(cmod, step["class"])
+            kw = dict(step.get("params", {}))
+            for pn in step.get("single", []):
+                kw[pn] = producer
+            for pn in step.get("lists", []):
+                if step.get("double"):
+                    # a second, different input: constant, valid everywhere, inside the fuzzy range
+                    other = StubCommand("Q", numpy.ma.array(numpy.full(res.shape, -0.5), mask=numpy.zeros(res.shape, dtype=bool)), producer.is_fuzzy)
+                    kw[pn] = [producer, other]
+                else:
+                    kw[pn] = [producer]
+            for pn in step.get("paths", []):
+                kw[pn] = os.path.join(tmpd, "%s_%d.csv" % (step["class"], len(chain)))
+            rec = {"consumer": step["class"]}
+            with warnings.catch_warnings():
+                warnings.simplefilter("ignore")
+                try:
+                    ccls("c%d" % len(chain), [], program=None, lineno=9).execute(**kw)
+                    rec["outcome"] = "return"
+                except Exception as e:  # a consumer may reject the input; the producer's result must still be untouched
+                    rec["outcome"] = "raise:" + type(e).__name__
+            rec["after"] = dump_array(producer._arr)
+            chain.append(rec)
+        out["then"] = {"snapshot": snap0, "chain": chain}
+        import shutil
+
+        shutil.rmtree(tmpd, ignore_errors=True)
     out["inputs_after"] = {n: [dump_array(s._arr) for s in ss] for n, ss in stubs.items()}
     out["inputs_before"] = originals
     out["reads"] = {n: [s.reads for s in ss] for n, ss in stubs.items()}
